@@ -14,12 +14,16 @@
 (* now.  C02 says: after a successful invocation every output in the       *)
 (* requested closure carries Clean.                                        *)
 (***************************************************************************)
-EXTENDS N2Store, TLC
+EXTENDS N2Store, TLC, Json
 
 CONSTANTS
   MaxOps,       \* bound on the length of a history (user operations + invocations)
   Variant,      \* which project family
-  RuleBug       \* "none" | a planted defect of the manifest rule (self-test: TLC must object)
+  RuleBug,      \* "none" | a planted defect of the manifest rule (self-test: TLC must object)
+  Record        \* TRUE: carry the history of operations (with the outcome this model predicts
+                \* for every invocation) so that behaviours can be printed and replayed into the
+                \* real n2; FALSE in the exhaustive configurations (a history variable makes
+                \* every path a distinct state)
 
 VARIABLES
   file,     \* name -> [mt, ver]  (mt = 0: missing)
@@ -29,10 +33,13 @@ VARIABLES
   clock,    \* logical time of the last write
   nops,
   last,     \* outcome of the last invocation: [ok, ran, targets, fresh] (fresh: nothing changed since)
-  vouched   \* a -t restat invocation happened: the user, not n2, answers for the outputs (C02
+  vouched,  \* a -t restat invocation happened: the user, not n2, answers for the outputs (C02
             \* does not quantify over such histories)
+  hist,     \* the operations so far (only when Record)
+  plan      \* variant "regen": the manifest version the generator writes when it next runs
+            \* (a function of the generator's input, which the user edits)
 
-vars == <<file, log, mver, reads, clock, nops, last, vouched>>
+vars == <<file, log, mver, reads, clock, nops, last, vouched, hist, plan>>
 
 ---------------------------------------------------------------------------
 \* The project: sources a, b, header h (read, not declared), generated header gh.
@@ -47,6 +54,9 @@ StepO2     == S(<<"o2">>, <<"o1", "b">>, <<>>, "link", "")
 StepGH     == S(<<"gh">>, <<"gh.in">>, <<>>, "genh", "")
 StepO1G(cmd) == S(<<"o1">>, <<"a">>, <<"gh">>, cmd, "o1.d")
 StepO12    == S(<<"o1", "x1">>, <<"a">>, <<>>, "cc1", "o1.d")
+\* the manifest itself is the output of a generator step
+MF         == "build.ninja"
+StepGen    == S(<<MF>>, <<"gen.in">>, <<>>, "regen", "")
 
 \* Manifest versions over a common set of file names.
 Versions ==
@@ -58,14 +68,24 @@ Versions ==
     [] Variant = "genh" ->
          << G(<<StepGH, StepO1G("cc1"), StepO2>>),
             G(<<StepO2, StepGH, StepO1G("cc1")>>) >>
+    [] Variant = "regen" ->
+         << G(<<StepGen, StepO1("cc1"), StepO2>>),    \* 1
+            G(<<StepGen, StepO1("cc2"), StepO2>>),    \* 2: the generator changes a command
+            G(<<StepGen, StepO1("cc1")>>),            \* 3: ... removes a step
+            G(<<StepO2, StepO1("cc1"), StepGen>>),    \* 4: ... reorders the statements
+            G(<<StepGen, StepO1("cc1"),               \* 5: ... rewires: o2 no longer uses o1
+                S(<<"o2">>, <<"b">>, <<>>, "link", "")>>) >>
     [] Variant = "outs" ->
          << G(<<StepO12, StepO2>>),                \* o1 and x1 from one step
             G(<<StepO1("cc1"), StepO2>>),          \* x1 dropped: the old record must not apply
             G(<<StepO1("cc1"), S(<<"x1">>, <<"b">>, <<>>, "cx", ""), StepO2>>) >>  \* x1 moved
 
-Sources == CASE Variant = "genh" -> {"a", "b", "h", "gh.in"} [] OTHER -> {"a", "b", "h"}
+Sources == CASE Variant = "genh" -> {"a", "b", "h", "gh.in"}
+             [] Variant = "regen" -> {"a", "b", "h", "gen.in"}
+             [] OTHER -> {"a", "b", "h"}
 Headers(g, s) == IF "gh" \in OrdIns(g, s) THEN {"h", "gh"} ELSE {"h"}
 Cur == Versions[mver]
+SetSeq(X) == CHOOSE q \in [1..Cardinality(X) -> X] : Range(q) = X
 
 Mt == [f \in DOMAIN file |-> file[f].mt]
 VerOf(f) == IF f \in DOMAIN file /\ file[f].mt # 0 THEN file[f].ver ELSE <<"missing", f>>
@@ -152,11 +172,13 @@ Fold(g, acc, order, F, adopt) ==
   IF order = <<>> THEN acc
   ELSE Fold(g, RunStep(g, acc, Head(order), F, adopt), Tail(order), F, adopt)
 
-Invocation(g, T, F, adopt) ==
+InvocationFrom(g, T, F, adopt, acc0) ==
   LET need == Needed(g, T)
       order == SelectSeq(Topo(g, {}, <<>>), LAMBDA s : s \in need)
-  IN Fold(g, [file |-> file, log |-> log, clock |-> clock, ran |-> {}, failed |-> {},
-              err |-> FALSE], order, F, adopt)
+  IN Fold(g, acc0, order, F, adopt)
+
+Acc0 == [file |-> file, log |-> log, clock |-> clock, ran |-> {}, failed |-> {}, err |-> FALSE]
+Invocation(g, T, F, adopt) == InvocationFrom(g, T, F, adopt, Acc0)
 
 ---------------------------------------------------------------------------
 Init ==
@@ -165,9 +187,13 @@ Init ==
   /\ reads = [o \in {"o1"} |-> <<"h">>]
   /\ clock = 1 /\ nops = 0
   /\ last = [ok |-> FALSE, ran |-> {}, targets |-> {}, fresh |-> FALSE, adopt |-> FALSE]
-  /\ vouched = FALSE
+  /\ vouched = FALSE /\ plan = 1
+  /\ hist = IF Record THEN <<[op |-> "init", g |-> Versions[1], reads |-> [o \in {"o1"} |-> <<"h">>],
+                                sources |-> SetSeq(Sources),
+                                versions |-> IF Variant = "regen" THEN Versions ELSE <<>>]>> ELSE <<>>
 
 Op == nops < MaxOps /\ nops' = nops + 1
+Rec(r) == hist' = IF Record THEN Append(hist, r) ELSE hist
 Stale == [last EXCEPT !.fresh = FALSE]
 
 \* The user edits a source (new content, new mtime).
@@ -175,7 +201,8 @@ Edit(f) ==
   /\ Op /\ f \in Sources
   /\ clock' = clock + 1
   /\ file' = [file EXCEPT ![f] = [mt |-> clock + 1, ver |-> <<"src", f, clock + 1>>]]
-  /\ last' = Stale /\ UNCHANGED <<log, mver, reads, vouched>>
+  /\ last' = Stale /\ UNCHANGED <<log, mver, reads, vouched, plan>>
+  /\ Rec([op |-> "edit", f |-> f])
 
 \* ... edits a.c so that it includes another set of headers.
 EditIncludes(q) ==
@@ -184,46 +211,96 @@ EditIncludes(q) ==
   /\ \A i \in DOMAIN q : q[i] = "gh" \/ (q[i] \in DOMAIN file /\ file[q[i]].mt # 0)
   /\ file' = [file EXCEPT !["a"] = [mt |-> clock + 1, ver |-> <<"src", "a", clock + 1>>]]
   /\ reads' = [reads EXCEPT !["o1"] = q]
-  /\ last' = Stale /\ UNCHANGED <<log, mver, vouched>>
+  /\ last' = Stale /\ UNCHANGED <<log, mver, vouched, plan>>
+  /\ Rec([op |-> "includes", q |-> q, reads |-> reads'])
 
 \* ... touches or overwrites any existing file (an output gets junk content).
 Touch(f) ==
-  /\ Op /\ f \in DOMAIN file /\ file[f].mt # 0
+  /\ Op /\ f \in DOMAIN file /\ file[f].mt # 0 /\ f # MF
   /\ clock' = clock + 1
   /\ file' = [file EXCEPT ![f] = [mt |-> clock + 1,
                                    ver |-> IF f \in Sources THEN @.ver ELSE <<"junk", clock + 1>>]]
-  /\ last' = Stale /\ UNCHANGED <<log, mver, reads, vouched>>
+  /\ last' = Stale /\ UNCHANGED <<log, mver, reads, vouched, plan>>
+  /\ Rec([op |-> "touch", f |-> f])
 
 \* ... deletes an output, an intermediate or the header.
 Delete(f) ==
-  /\ Op /\ f \in DOMAIN file /\ file[f].mt # 0 /\ f \notin {"a", "b", "gh.in"}
+  /\ Op /\ f \in DOMAIN file /\ file[f].mt # 0 /\ f \notin {"a", "b", "gh.in", "gen.in", MF}
   /\ file' = [file EXCEPT ![f] = [mt |-> 0, ver |-> <<"missing", f>>]]
   \* a header that is gone is no longer read
   /\ reads' = IF f = "h" THEN [reads EXCEPT !["o1"] = SelectSeq(@, LAMBDA x : x # "h")] ELSE reads
   /\ clock' = clock
-  /\ last' = Stale /\ UNCHANGED <<log, mver, vouched>>
+  /\ last' = Stale /\ UNCHANGED <<log, mver, vouched, plan>>
+  /\ Rec([op |-> "delete", f |-> f, reads |-> reads'])
 
 \* ... replaces the manifest.
 SetManifest(v) ==
-  /\ Op /\ v \in DOMAIN Versions /\ v # mver
+  /\ Op /\ v \in DOMAIN Versions /\ v # mver /\ Variant # "regen"
   /\ mver' = v
   \* a version that only reorders statements is no change of the project
   /\ last' = IF {Versions[v].steps[i] : i \in DOMAIN Versions[v].steps}
                 = {Cur.steps[i] : i \in DOMAIN Cur.steps} THEN last ELSE Stale
-  /\ UNCHANGED <<file, log, reads, clock, vouched>>
+  /\ UNCHANGED <<file, log, reads, clock, vouched, plan>>
+  /\ Rec([op |-> "manifest", v |-> v, g |-> Versions[v]])
 
 TargetSets(g) == {AllOuts(g)} \cup {{o} : o \in AllOuts(g)}
 
 Invoke(T, F, adopt) ==
-  /\ Op
+  /\ Op /\ Variant # "regen"
   /\ LET g == Cur
          r == Invocation(g, T, F, adopt)
          ok == ~r.err /\ r.failed = {}
      IN /\ file' = r.file /\ log' = r.log /\ clock' = r.clock
         /\ last' = [ok |-> ok, ran |-> {g.steps[s].outs[1] : s \in r.ran}, targets |-> T,
                     fresh |-> TRUE, adopt |-> adopt]
+        \* the prediction: which commands run, the verdict, and what is remembered per step
+        /\ Rec([op |-> "invoke", targets |-> SetSeq(T), fail |-> SetSeq(F), adopt |-> adopt,
+                ran |-> SetSeq({g.steps[s].outs[1] : s \in r.ran}), ok |-> ok, err |-> r.err,
+                deps |-> [s \in StepIds(g) |-> LoadedFor(g, r.log, s).deps],
+                recorded |-> SetSeq({s \in StepIds(g) : LoadedFor(g, r.log, s).tok # ""})])
   /\ vouched' = (vouched \/ adopt)
-  /\ UNCHANGED <<mver, reads>>
+  /\ UNCHANGED <<mver, reads, plan>>
+
+\* Variant "regen".  The user edits the generator's input so that it will produce version v.
+PlanRegen(v) ==
+  /\ Op /\ Variant = "regen" /\ v \in DOMAIN Versions /\ v # plan
+  /\ clock' = clock + 1
+  /\ file' = [file EXCEPT !["gen.in"] = [mt |-> clock + 1, ver |-> <<"src", "gen.in", clock + 1>>]]
+  /\ plan' = v
+  /\ last' = Stale /\ UNCHANGED <<log, mver, reads, vouched>>
+  /\ Rec([op |-> "plan", v |-> v, g |-> Versions[v]])
+
+\* One invocation when the manifest is generated (run.rs): phase 1 brings the manifest up to
+\* date; if a command ran for that, the manifest is read again and everything else (targets,
+\* closure, dirtiness) is decided against the new text; if phase 1 fails nothing else runs.
+\* Fn: first outputs of the steps whose command fails this time.  T = {}: no names given.
+FailIn(g, Fn) == {s \in StepIds(g) : g.steps[s].outs[1] \in Fn}
+NamesOf(g, X) == {g.steps[s].outs[1] : s \in X}
+InvokeRegen(T, Fn) ==
+  /\ Op /\ Variant = "regen"
+  /\ LET g == Cur
+         r1 == Invocation(g, {MF}, FailIn(g, Fn), FALSE)
+         ok1 == ~r1.err /\ r1.failed = {}
+         reload == ok1 /\ r1.ran # {}
+         g2 == IF reload /\ RuleBug # "noreload" THEN Versions[plan] ELSE g
+         unknown == {t \in T : t \notin AllFiles(g2) \cup {MF}}
+         T2 == IF T = {} THEN AllFiles(g2) \ {MF} ELSE T \ {MF}
+         go2 == ok1 /\ unknown = {}
+         r2 == IF go2 THEN InvocationFrom(g2, T2, FailIn(g2, Fn), FALSE,
+                                          [r1 EXCEPT !.ran = {}, !.failed = {}])
+               ELSE [r1 EXCEPT !.ran = {}, !.failed = {}]
+         ok == go2 /\ ~r2.err /\ r2.failed = {}
+         gEnd == IF reload THEN Versions[plan] ELSE g
+     IN /\ file' = r2.file /\ log' = r2.log /\ clock' = r2.clock
+        /\ mver' = IF reload THEN plan ELSE mver
+        /\ last' = [ok |-> ok, ran |-> NamesOf(g, r1.ran) \cup NamesOf(g2, r2.ran),
+                    targets |-> T2 \cup {MF}, fresh |-> TRUE, adopt |-> FALSE]
+        /\ Rec([op |-> "invoke2", targets |-> SetSeq(T), fail |-> SetSeq(Fn),
+                ran1 |-> SetSeq(NamesOf(g, r1.ran)), reload |-> reload,
+                ran2 |-> SetSeq(NamesOf(g2, r2.ran)), ok |-> ok, unknown |-> SetSeq(unknown),
+                deps |-> [s \in StepIds(gEnd) |-> LoadedFor(gEnd, r2.log, s).deps],
+                recorded |-> SetSeq({s \in StepIds(gEnd) : LoadedFor(gEnd, r2.log, s).tok # ""})])
+  /\ UNCHANGED <<reads, vouched, plan>>
 
 Next ==
   \/ \E f \in Sources : Edit(f)
@@ -234,6 +311,9 @@ Next ==
   \/ \E T \in TargetSets(Cur) : \E F \in {{}} \cup {{s} : s \in StepIds(Cur)} :
         Invoke(T, F, FALSE)
   \/ \E T \in TargetSets(Cur) : Invoke(T, {}, TRUE)
+  \/ \E v \in DOMAIN Versions : PlanRegen(v)
+  \/ \E T \in {{}} \cup {{o} : o \in AllOuts(Cur) \ {MF}} :
+        \E Fn \in {{}} \cup {{o} : o \in AllOuts(Cur)} : InvokeRegen(T, Fn)
 
 Spec == Init /\ [][Next]_vars
 
@@ -249,7 +329,7 @@ C02 ==
 
 \* C03: right after a successful invocation the same request runs nothing; restat makes the
 \* present state count as up to date.  (Domain: every declared file exists.)
-WouldRun(T) == Invocation(Cur, T, {}, FALSE).ran
+WouldRun(T) == Invocation(Cur, T, {}, FALSE).ran     \* (T contains the manifest in variant regen)
 AllPresent(T) == \A s \in Needed(Cur, T) :
                     MissingOf(Cur, Mt, s, LoadedFor(Cur, log, s).deps) = {}
 C03 == (last.fresh /\ last.ok /\ AllPresent(last.targets)) => WouldRun(last.targets) = {}
@@ -266,6 +346,21 @@ C09 == \A s \in StepIds(Cur) :
 \* C08: a record is only ever loaded for the step that produces all its outputs.
 C08 == \A s \in StepIds(Cur) :
           LET r == LoadedFor(Cur, log, s) IN r.tok # "" => Range(r.outs) \subseteq Outs(Cur, s)
+
+\* One line per complete behaviour, for the replay into the real n2 (configurations with
+\* Record = TRUE only): the manifest versions, and the operations with the predicted outcomes.
+IsInv(r) == r.op \in {"invoke", "invoke2"}
+Emit == (Record /\ nops = MaxOps /\ IsInv(hist[2]) /\ IsInv(hist[Len(hist)])) =>
+          PrintT(<<"VEC", ToJson([variant |-> Variant, ops |-> hist])>>)
+\* Shape of the replayed behaviours: they begin with a build and end with an invocation.
+ReplayShape == (Record /\ (nops = 0 \/ nops = MaxOps - 1)) => IsInv(hist'[Len(hist')])
+
+\* C17: after a successful invocation the manifest on disk is the one its generator produces from
+\* the present generator input, and the generator's step is up to date.
+GenStepOf(g) == CHOOSE s \in StepIds(g) : MF \in Outs(g, s)
+C17 == (Variant = "regen" /\ last.fresh /\ last.ok) =>
+          /\ mver = plan
+          /\ ~DirtyB(Cur, Mt, LoadedFor(Cur, log, GenStepOf(Cur)), GenStepOf(Cur))
 
 TypeOK == nops \in 0..MaxOps /\ mver \in DOMAIN Versions
 =============================================================================
